@@ -21,30 +21,31 @@ import (
 )
 
 type Params struct {
-	N        int
-	Cuts     int
-	Fmts     []int
-	Codec    int
-	Ctl      bool // trailing control batch
-	Start    string
-	Version  sarama.KafkaVersion
-	FetchSz  int
-	FetchMax int // Consumer.Fetch.Max
-	BPF      int
-	Buf      int
-	NParts   int
-	NBrokers int
-	Faults   []string
-	Slow     bool
-	Gates    map[string]bool
-	RC       bool
-	Txn      []string // transactional log spec (C11): dA dB dN cA cB aA aB
-	AbOrder  int      // permutation index of the aborted index
-	Icpt     int
-	CloseAny bool
-	Move     bool
-	Append   bool
-	Base     int64 // first offset of the log (log start)
+	N         int
+	Cuts      int
+	Fmts      []int
+	Codec     int
+	Ctl       bool // trailing control batch
+	Start     string
+	Version   sarama.KafkaVersion
+	FetchSz   int
+	FetchMax  int // Consumer.Fetch.Max
+	BPF       int
+	Buf       int
+	NParts    int
+	NBrokers  int
+	Faults    []string
+	Slow      bool
+	Gates     map[string]bool
+	RC        bool
+	Txn       []string // transactional log spec (C11): dA dB dN cA cB aA aB
+	AbOrder   int      // permutation index of the aborted index
+	Icpt      int
+	IcptPanic int // >0: the consumer interceptor at this (1-based) position panics after counting itself
+	CloseAny  bool
+	Move      bool
+	Append    bool
+	Base      int64 // first offset of the log (log start)
 }
 
 func atoi(v url.Values, k string, def int) int {
@@ -61,7 +62,7 @@ func atoi(v url.Values, k string, def int) int {
 func Parse(v url.Values) (*Params, error) {
 	p := &Params{N: atoi(v, "n", 3), Cuts: atoi(v, "cuts", 0), Codec: atoi(v, "codec", 1), Ctl: atoi(v, "ctl", 0) == 1,
 		Start: v.Get("start"), FetchSz: atoi(v, "fsz", 0), FetchMax: atoi(v, "fmax", 0), BPF: atoi(v, "bpf", 0), Buf: atoi(v, "buf", 0), NParts: atoi(v, "np", 1),
-		NBrokers: atoi(v, "nb", 1), Slow: atoi(v, "slow", 0) == 1, RC: v.Get("iso") == "rc", AbOrder: atoi(v, "abo", 0), Icpt: atoi(v, "icpt", 0),
+		NBrokers: atoi(v, "nb", 1), Slow: atoi(v, "slow", 0) == 1, RC: v.Get("iso") == "rc", AbOrder: atoi(v, "abo", 0), Icpt: atoi(v, "icpt", 0), IcptPanic: atoi(v, "icptpanic", 0),
 		CloseAny: atoi(v, "closeany", 0) == 1, Move: atoi(v, "move", 0) == 1, Append: atoi(v, "app", 0) == 1, Base: int64(atoi(v, "base", 0))}
 	if p.Start == "" {
 		p.Start = "old"
@@ -324,8 +325,9 @@ type pcState struct {
 }
 
 type icpt struct {
-	r   *rig
-	idx int
+	r     *rig
+	idx   int
+	panic bool
 }
 
 func (i *icpt) OnConsume(m *sarama.ConsumerMessage) {
@@ -346,6 +348,9 @@ func (i *icpt) OnConsume(m *sarama.ConsumerMessage) {
 	i.r.icptLog[fmt.Sprintf("%d/%d/%d", m.Partition, m.Offset, i.idx)]++
 	i.r.icptSeq = append(i.r.icptSeq, fmt.Sprintf("%d/%d/%d", m.Partition, m.Offset, i.idx))
 	i.r.mu.Unlock()
+	if i.panic {
+		panic("consumer interceptor panic (deliberate)")
+	}
 }
 
 type rig struct {
@@ -421,7 +426,7 @@ func run(c *gx.Ctl, p *Params) *gx.Outcome {
 	}
 	conf.Consumer.Interceptors = append(conf.Consumer.Interceptors, &icpt{r: r, idx: -1})
 	for i := 0; i < p.Icpt; i++ {
-		conf.Consumer.Interceptors = append(conf.Consumer.Interceptors, &icpt{r: r, idx: i})
+		conf.Consumer.Interceptors = append(conf.Consumer.Interceptors, &icpt{r: r, idx: i, panic: p.IcptPanic == i+1})
 	}
 
 	start := int64(0)
@@ -838,7 +843,7 @@ func (r *rig) judge(start int64) *gx.Outcome {
 			}
 		}
 		if len(st.got) < len(exp) && !p.CloseAny && !shutDown {
-			out.Violate(prop, "no-progress", "%s: delivery stopped although the partition is reachable and the application keeps reading (stuck=%v parked=%v pending=%s)", describe(), r.c.Stuck, r.c.Parked(), r.cl.PendingKinds())
+			out.Violate(prop, "no-progress", "%s: delivery stopped although the partition is reachable and the application keeps reading (stuck=%v parked=%v pending=%s %s)", describe(), r.c.Stuck, r.c.Parked(), r.cl.PendingKinds(), r.cl.RefetchLoop)
 		}
 		// interceptors: exactly once per delivered message and interceptor, at most once otherwise
 		if p.Icpt > 0 {
